@@ -358,6 +358,7 @@ class Plan:
         ("simple", 2.0), ("chain", 3.5), ("diamond", 1.0), ("orphan", 1.0), ("amend_opt", 3.5),
         ("amend_static", 2.4), ("undeclared", 0.6), ("resource", 1.5), ("planner", 1.6),
         ("volatile", 0.5), ("cross", 1.0), ("always_defer", 1.6), ("stuck_defer", 0.5),
+        ("shared_opt", 2.5),
     )
 
     def gen_motif(self, statics: list[str], depth: int, only=None) -> list:
@@ -436,6 +437,29 @@ class Plan:
                                program=self.leaf_program(label, actions)))
         if rng.random() < 0.3:
             defs.reverse()
+        return defs
+
+    def _m_shared_opt(self, statics, depth):
+        """One OPTIONAL output with several consumers of different need: an OPTIONAL consumer that
+        nothing needs (initial input), sometimes a second one, and a DEFAULT consumer that amends it
+        (or takes it as an initial input). Program mutations (drop_amend, inputs, drop) later make the
+        higher-need consumer lose its edge while the lower-need one stays."""
+        rng = self.rng
+        x = self.new_path("o")
+        defs = [self.mkdef(self.new_label("p"), [rng.choice(statics)] if rng.random() < 0.8 else [], [x],
+                           need=OPTIONAL)]
+        for _ in range(1 if rng.random() < 0.7 else 2):
+            out = [self.new_path("o")] if rng.random() < 0.7 else []
+            defs.append(self.mkdef(self.new_label("m"), [x], out, need=OPTIONAL))
+        label = self.new_label("c")
+        out = [self.new_path("o")] if rng.random() < 0.6 else []
+        if rng.random() < 0.7:
+            actions = [["amend", {"inp": [x], "out": [], "vol": []}]]
+            defs.append(self.mkdef(label, [rng.choice(statics)], out, need=DEFAULT,
+                                   program=self.leaf_program(label, actions)))
+        else:
+            defs.append(self.mkdef(label, [x, rng.choice(statics)], out, need=DEFAULT))
+        rng.shuffle(defs)
         return defs
 
     def _m_amend_static(self, statics, depth):
